@@ -30,6 +30,8 @@ pub enum Ev {
     Record(TransactionChange),
     /// a trigger body ran (may do anything)
     Trigger,
+    /// Database::update_indexes_for_delete(table, row, position): the row's keys leave the user-defined indexes, NO position is adjusted (unit I-maint delete_step)
+    IndexDelete(Str, Row, usize),
 }
 pub open spec fn pos_set(v: Seq<(usize, Row)>) -> Set<usize> { Seq::new(v.len(), |i: int| v[i].0).to_set() }
 /// the Delete records for the first n collected rows, in order
@@ -72,6 +74,12 @@ impl Database {
     { unimplemented!() }
     #[verifier::external_body]
     pub fn rebuild_indexes(&mut self, t: &Str) ensures final(self).trace() == old(self).trace().push(Ev::Rebuild(*t)) { unimplemented!() }
+    // other storage operations a DELETE might be rewritten to use (idioms recognised below): they leave their own events
+    #[verifier::external_body]
+    pub fn update_indexes_for_delete(&mut self, t: &Str, row: &Row, row_index: usize) ensures final(self).trace() == old(self).trace().push(Ev::IndexDelete(*t, *row, row_index)) { unimplemented!() }
+    // database.get_table(&name).map_or(0, |table| table.row_count())
+    #[verifier::external_body]
+    pub fn tbl_row_count(&self, t: &Str) -> (r: usize) { unimplemented!() }
     #[verifier::external_body]
     pub fn record_change(&mut self, c: TransactionChange) ensures final(self).trace() == old(self).trace().push(Ev::Record(c)) { unimplemented!() }
 }
@@ -106,6 +114,10 @@ ITEMS = {
             ('re', r'(?s)let table_mut = database\s*\.get_table_mut\(&stmt\.table_name\)\s*\.ok_or_else\(\|\| ExecutorError::TableNotFound\(stmt\.table_name\.clone\(\)\)\)\?;.*?let deleted_count = table_mut\.delete_where\(\|_row\| \{.*?\n        \}\);',
              'let deleted_count = database.delete_positions(&stmt.table_name, &indices_to_delete)?;', 1),
             ('re', r'vibesql_storage::database::TransactionChange', 'TransactionChange', None),
+            # idioms (present or not): row count of the statement's table; a slice-pattern match on the collected rows written as the `if` it abbreviates
+            ('re', r'database\.get_table\(&stmt\.table_name\)\.map_or\(0, \|(\w+)\| \1\.row_count\(\)\)', 'database.tbl_row_count(&stmt.table_name)', None),
+            ('re', r'(?s)match (\w+)\.as_slice\(\) \{\s*\[\((\w+), (\w+)\)\] if ([^{}]*?) => \{(.*?)\}\s*_ => ([^{}]*?),\s*\}',
+             r'if \1.len() == 1 && { let \2 = &\1[0].0; let \3 = &\1[0].1; \4 } { let \2 = &\1[0].0; let \3 = &\1[0].1; \5; } else { \6; }', None),
             ('re', r'for \(_, row\) in &rows_and_indices_to_delete \{', 'let mut di__: usize = 0; while di__ < rows_and_indices_to_delete.len() { let row = &rows_and_indices_to_delete[di__].1; di__ = di__ + 1;', 2),
             ('re', r'(?s)crate::TriggerFirer::execute_after_triggers\(\s*database,\s*&stmt\.table_name,\s*vibesql_ast::TriggerEvent::Delete,\s*Some\(row\),\s*None,\s*\)\?', 'after_row_trigger(database, &stmt.table_name, row)?', 1),
             ('re', r'(?s)crate::TriggerFirer::execute_after_statement_triggers\(\s*database,\s*&stmt\.table_name,\s*vibesql_ast::TriggerEvent::Delete,\s*\)\?', 'after_statement_trigger(database, &stmt.table_name)?', 1),
@@ -152,5 +164,6 @@ CANARIES = ['canary_apply']
 TRUSTED = [
     'R6 (fragment kind tail): the statements of DeleteExecutor::execute_internal from "// Extract just the indices" to the end are lifted; NOT under contract: everything before it - privilege check, the truncate fast path, which rows are collected (row selection: units D-pk / E-truthy), BEFORE triggers, the referential-integrity actions (cascades run BEFORE the deletion and may change the table the positions refer to: observed, DESIGN 9b)',
     'the contract is over a TRACE of storage operations (ghost sequence Database::trace): external_body delete_positions (get_table_mut + Table::delete_where with the position-counting closure `|_row| { let i = counter; counter += 1; set.contains(&i) }` = ONE event DeletePositions(table, positions); that delete_where calls its predicate once per row in position order and removes exactly the rows it accepts is unit K-table), rebuild_indexes (event Rebuild), record_change (event Record), the AFTER triggers (external_body after_row_trigger / after_statement_trigger - event Trigger: a trigger body may do anything to the database); Row::clone / Str::clone are copies; PosSet = HashSet<usize>',
+    'idioms recognised if present (each leaves its own trace event, so a DELETE that maintains indexes some other way than by the rebuild fails the contract instead of leaving the unit undecided): external_body update_indexes_for_delete (event IndexDelete), tbl_row_count (`database.get_table(&name).map_or(0, |t| t.row_count())`), and a slice-pattern `match rows.as_slice() { [(a, b)] if C => X, _ => Y }` written as the `if` it abbreviates',
     'positions_of = iter().map(|(idx, _)| *idx).collect::<HashSet<usize>>(); Row / Str / ExecutorError / TriggerContext opaque; DeleteStmt and TransactionChange reduced to what is used; R10 rewrite of the two `for (_, row) in &rows_and_indices_to_delete` loops',
 ]
